@@ -200,10 +200,20 @@ def api_after_close_monitor(case, il, sl):
     return None
 
 
+def queued_close_monitor(case, il, sl):
+    import refmon, monitors
+    v = monitor(case, il, sl)
+    if v:
+        return v
+    return monitors.queued_before_close(refmon.Trace(case, il), "c08-discarded-at-close")
+
+
 def suites(tier, seed):
     import hbgen
     import apigen
-    return [Suite("next-call-at-api", "api", lambda: gen_api_after_close(tier, seed), monitor=api_after_close_monitor, nontrivial=lambda c, il: True, canon=apigen.canon, shards=4, timeout=60,
+    return [Suite("close-behind-queued-data", "machine", lambda: __import__("machgen").close_behind_queued_cases(Rng(seed + 17)), monitor=queued_close_monitor, nontrivial=lambda c, il: True, canon=__import__("machgen").canon_nondet, exhaustive=True,
+                  rule="1-5 submissions waiting in one or two channels' queues - not yet taken by the I/O thread; channels polled, or deregistered because of the high-water mark - when the client's Connection.Close is taken off channel 0's queue: everything accepted before close() was requested is on the wire ahead of the Close, nothing is discarded silently (finding D17)"),
+            Suite("next-call-at-api", "api", lambda: gen_api_after_close(tier, seed), monitor=api_after_close_monitor, nontrivial=lambda c, il: True, canon=apigen.canon, shards=4, timeout=60,
                   rule="public API over the real queue ends: 1-3 channels kept open across a client- or server-initiated connection close (ClientClosedConnection / ServerClosedConnection 320, 200, 541 queued for each handle); the next call on each - ordinary call, explicit Channel::close, drop, drop by unwinding - : calls fail with exactly that error, drops are silent; exact diff against the Lean Api model"),
             Suite("server-close-e2e", "faults", lambda: [Case("f%d" % i, ["run %s %d" % c], {"keep_prefix": 0, "fault": c[0]}) for i, c in enumerate([("srvclose", 0), ("srvclose200", 0), ("srvclose541", 1)] + ([] if tier == "quick" else [("srvclose0", 0), ("srvclose65535", 0), ("srvclose404", 0)]))],
                   monitor=__import__("props.c05", fromlist=["x"]).e2e_monitor, nontrivial=lambda c, il: True, compare=False, shards=6, timeout=300,
